@@ -185,7 +185,7 @@ def _sys_key(case):
 
 def manifold(case):
     from hiten import System
-    key = (_sys_key(case), int(case["point"]), int(case["N"]))
+    key = (_sys_key(case), int(case["point"]), int(case["N"]), case.get("via_degree"))
     m = _MAN.get(key)
     if m is not None:
         return m
@@ -195,7 +195,15 @@ def manifold(case):
     sysm = System.from_bodies(sy["primary"], sy["secondary"]) if sy["via"] == "bodies" else System.from_mu(float(sy["mu"]))
     L = sysm.get_libration_point(int(case["point"]))
     N = int(case["N"])
-    cm = L.get_center_manifold(degree=N)
+    n0 = case.get("via_degree")
+    if n0 is not None and int(n0) != N:
+        # same object, used at degree n0 first (conversion forces its pipeline), then switched to N through the public setter
+        cm = L.get_center_manifold(degree=int(n0))
+        cm.compute()
+        cm.to_cm(cm.to_synodic(np.array([0.01, 0.0, 0.01, 0.0])))
+        cm.degree = N
+    else:
+        cm = L.get_center_manifold(degree=N)
     cm.compute()
     ham = cm.hamiltonian(N)
     m = Man()
@@ -263,6 +271,8 @@ def cm_case(draw, N):
         secs.append({"coord": c, "r": float(math.exp(draw(st.floats(math.log(0.02), math.log(0.3))))),
                      "conj": draw(_mag), "plane": draw(_direction(2))})
     return {"sys": draw(_system()), "point": draw(st.integers(1, 2)), "N": N,
+            # history variant: the manifold object was first built and used at another degree, then `degree` was set to N
+            "via_degree": draw(st.sampled_from([None, None, 3, 5])),
             "r0": _LADDER[N][2] * draw(st.floats(0.8, 1.25)),
             "dirs": [draw(_direction(4)) for _ in range(_NDIRS[N])], "sections": secs}
 
